@@ -85,6 +85,8 @@ class Exec:
                         k, v = kvp.split('=', 1)
                         r[k] = v
                 return r
+            if ln.startswith('# ') and os.environ.get('KX_SHOWLOG'):
+                print(ln)
             # stray output: ignore
 
     def close(self):
